@@ -52,6 +52,9 @@ func c20Health(r *core.Run, agentBin string, md *fakes.Metadata, c c20HealthCase
 		pass := i < len(c.Script) && c.Script[i] == 'P'
 		mu.Unlock()
 		keep := true
+		// the time stamp is taken before the reply is written: the earliest moment the agent can have seen it
+		// (stamping after the write let a descheduled handler record a time later than the agent's first poll)
+		sent := time.Now()
 		if pass {
 			var w rawhttp.Builder
 			w.Line("HTTP/1.1 200 OK").Field("Content-Length", "2").End()
@@ -65,7 +68,7 @@ func c20Health(r *core.Run, agentBin string, md *fakes.Metadata, c c20HealthCase
 			keep = false // close without answering
 		}
 		mu.Lock()
-		events = append(events, c20HealthEvent{i, pass, time.Now()})
+		events = append(events, c20HealthEvent{i, pass, sent})
 		mu.Unlock()
 		return keep
 	})
